@@ -8,6 +8,7 @@ CALL_LOG = []          # dicts: seq, vt, thread, op, metric, args, outcome
 _lock = threading.Lock()
 FAULT_PLAN = {}        # call index (0-based over exists/create/write) -> exception class name
 CLOCK = [None]         # callable returning virtual time, set by harness
+TICK = [None]          # callable returning the harness' logical clock
 EXC = {'IOError': IOError, 'OSError': OSError, 'ValueError': ValueError,
        'Exception': Exception, 'KeyError': KeyError, 'RuntimeError': RuntimeError}
 
@@ -27,7 +28,7 @@ def reset():
 def _log(op, metric, args):
   with _lock:
     seq = len(CALL_LOG)
-    ent = dict(seq=seq, vt=(CLOCK[0]() if CLOCK[0] else None), thread=threading.current_thread().name,
+    ent = dict(seq=seq, vt=(CLOCK[0]() if CLOCK[0] else None), tick=(TICK[0]() if TICK[0] else None), thread=threading.current_thread().name,
                op=op, metric=metric, args=args, outcome=None)
     CALL_LOG.append(ent)
   return ent
